@@ -419,18 +419,16 @@ def search_roundtrip(ck, x):
                               replay_py=f"from chython import smiles\nprint(smiles({s!r}))")
             return
         exp = [[str(m) for m in role] for role in (rxn.reactants, rxn.reagents, rxn.products)]
-        if spec == '':
-            exp_c = [sorted(role) for role in exp]
         got = [[str(m) for m in role] for role in (back.reactants, back.reagents, back.products)]
         ok = [sorted(a) for a in got] == [sorted(a) for a in exp] and format(back, spec) == s
         if spec == '!c':
             ok = ok and got == exp
         multi = sum(1 for m in mols if m.connected_components_count > 1)
         ck.case(('roundtrip', spec, s), nontrivial=True)
-        if not ok and [sorted(format(m, '!s') for m in role) for role in (back.reactants, back.reagents, back.products)] == \
-                [sorted(format(m, '!s') for m in role) for role in (rxn.reactants, rxn.reagents, rxn.products)] and \
-                not all(numbering_stable(m, random.Random(0)) for m in mols):
-            ck.count('search:roundtrip:stereo spelling of a molecule depends on its numbering (C01/C12)')
+        if not ok and [len(r) for r in got] == [len(r) for r in exp] and not all(numbering_stable(m, random.Random(0)) for m in mols):
+            # same role sizes, but some molecule's own canonical string changes with its numbering (the reader numbers the
+            # atoms of a reaction consecutively): the mismatch is C01/C12 business, not the reaction code's
+            ck.count('search:roundtrip:canonical string of a molecule depends on its numbering (C01/C12)')
             return
         if not ok:
             ck.counterexample(f'roundtrip:{s}', 'reading back the reaction SMILES does not restore the same roles and molecules',
@@ -603,23 +601,10 @@ def search_directed(ck):
               'CCO>>', '>CCO>', '>>CCO', 'CCO.[Cl-].[Na+]>O>CC[O-].[Na+].Cl |f:1.2,4.5|', '[CH3].[Na+].[Cl-]>> |^1:0,f:1.2|',
               '[Na+].[Cl-].[CH3]>> |^1:2,f:0.1|'):
         r = smiles(s)
-        roles = s.split()[0].split('>')
-        exp = []
-        groups = [set(map(int, g.split('.'))) for g in re.search(r'f:([0-9.,]+)', s).group(1).split(',')] if 'f:' in s else []
-        i = 0
-        for role in roles:
-            n = 0
-            pieces = [p_ for p_ in role.split('.') if p_]
-            j = 0
-            while j < len(pieces):
-                g = next((g for g in groups if i + j in g), None)
-                j += len(g) if g else 1
-                n += 1
-            i += len(pieces)
-            exp.append(n)
+        exp = hand_role_counts(s)
         got = [len(r.reactants), len(r.reagents), len(r.products)]
         ck.case(('directed-read', s), nontrivial=True)
-        if got != exp:
+        if exp is not None and got != exp:
             ck.counterexample(f'roundtrip:{s}', 'reading a reaction SMILES does not restore the roles (molecule counts per role)', {'string': s}, got, exp,
                               'counting the pieces and f: groups of the string by hand',
                               replay_py=f"from chython import smiles\nr = smiles({s!r})\nprint(len(r.reactants), len(r.reagents), len(r.products), str(r))")
@@ -1112,7 +1097,7 @@ def hand_role_counts(s):
         return None
     mm = re.search(r'f:([0-9.,]+)', toks[1]) if len(toks) > 1 else None
     groups = [set(map(int, g.split('.'))) for g in mm.group(1).strip(',').split(',')] if mm else []
-    order = [0, 2, 1]       # CXSMILES fragment numbers run over reactants, reagents, products as written: left to right
+    # CXSMILES fragment numbers run over the string from left to right: reactants, reagents, products
     exp = []
     i = 0
     for role in roles:
